@@ -188,6 +188,59 @@ fn publish_race(rep: &mut Report) {
     }
 }
 
+/// A cell that is dropped WHILE its thread unwinds (a local of the panicking frame, a bystander of an
+/// unrelated panic, the last `Arc` owner panicking): it still owns its seed and drops it exactly once.
+fn unwind_drops(rep: &mut Report) {
+    let quiet = std::panic::take_hook();
+    std::panic::set_hook(Box::new(|_| {}));
+    for shape in ["local cell, panicking initialiser", "bystander of an unrelated panic", "initialised cell dropped while unwinding", "last Arc owner panics"] {
+        rep.cases += 1;
+        reset();
+        match shape {
+            "local cell, panicking initialiser" => {
+                let _ = std::thread::spawn(|| {
+                    let cell = OnceInitCell::<Seed, Value>::new(Seed::new(0, false));
+                    let _ = cell.get_or_init(|_s: &mut Seed| -> Value { panic!("initialiser panics") });
+                }).join();
+            }
+            "bystander of an unrelated panic" => {
+                let _ = std::thread::spawn(|| {
+                    let _cell = OnceInitCell::<Seed, Value>::new(Seed::new(0, false));
+                    panic!("unrelated");
+                }).join();
+            }
+            "initialised cell dropped while unwinding" => {
+                let _ = std::thread::spawn(|| {
+                    let cell = OnceInitCell::<Seed, Value>::new(Seed::new(0, false));
+                    let _ = cell.get_or_init(|s: &mut Seed| Value::new(s.0));
+                    panic!("unrelated");
+                }).join();
+            }
+            _ => {
+                let cell = Arc::new(OnceInitCell::<Seed, Value>::new(Seed::new(0, false)));
+                let hs: Vec<_> = (0..4).map(|_| {
+                    let c = cell.clone();
+                    std::thread::spawn(move || {
+                        let _ = c.get_or_init(|_s: &mut Seed| -> Value { panic!("initialiser panics") });
+                    })
+                }).collect();
+                drop(cell);
+                for h in hs {
+                    let _ = h.join();
+                }
+            }
+        }
+        rep.checks += 1;
+        let (sl, vl, sd, vd) = (SEED_LIVE.load(Ordering::SeqCst), VAL_LIVE.load(Ordering::SeqCst), SEED_DROPS.load(Ordering::SeqCst), VAL_DROPS.load(Ordering::SeqCst));
+        let want_vd = if shape == "initialised cell dropped while unwinding" { 1 } else { 0 };
+        if sl != 0 || vl != 0 || sd != 1 || vd != want_vd {
+            rep.mismatch(json!({"what":"a cell dropped while its thread unwinds did not drop its seed / value exactly once",
+                "shape":shape,"live_seeds":sl,"live_values":vl,"seed_drops":sd,"value_drops":vd}));
+        }
+    }
+    std::panic::set_hook(quiet);
+}
+
 /// racing threads on a seed WITHOUT destructor (the other code path)
 fn nodrop_races(rep: &mut Report, rng: &mut StdRng) {
     for _ in 0..150 {
@@ -353,6 +406,7 @@ pub fn main(args: &[String]) {
     // K threads racing; outcomes prescribed per thread; gated so that they overlap
     let mut rng = StdRng::seed_from_u64(seed);
     publish_race(&mut rep);
+    unwind_drops(&mut rep);
     nodrop_races(&mut rep, &mut rng);
     trace::enable();
     for round in 0..300 {
